@@ -19,14 +19,16 @@ def job(slot, prop, n, props):
     head = subprocess.run("git -C /repo rev-parse HEAD", shell=True, capture_output=True, text=True).stdout.strip()
     if not os.path.isdir(base + "/repo/.git"):
         sh("rm -rf %s/repo; git clone -q /repo %s/repo" % (base, base))
-    sh("cd %s/repo && git fetch -q origin && git checkout -q --detach %s && git reset -q --hard %s && git clean -qfdx" % (base, head, head))
+    rc, out = sh("cd %s/repo && git reset -q --hard && git clean -qfdx && git fetch -q origin && git checkout -q --detach %s && git reset -q --hard %s && git clean -qfdx && test -z \"$(git status --porcelain)\" && test $(git rev-parse HEAD) = %s" % (base, head, head, head))
+    if rc != 0:
+        raise RuntimeError("could not reset the private copy of /repo in %s: %s" % (base, out[-300:]))
     # tag-guarded hook files that engineers added to /repo's working tree but that are not committed yet
     sh("cd /repo && git ls-files --others --exclude-standard -z | rsync -a --from0 --files-from=- /repo/ %s/repo/" % base)
     sh("mkdir -p %s/verif && rsync -a --delete --exclude=.git --exclude='.work/*/' --exclude='.work/*.bak*' --exclude=replays /verif/ %s/verif/ && mkdir -p %s/verif/.work/bin" % (base, base, base))
     # binaries: hard-link copy is unsafe (go build rewrites in place) -> plain copy of what exists, rebuilt anyway when stale
     sh("cp -u /verif/.work/bin/* %s/verif/.work/bin/ 2>/dev/null" % base)
     inner = ("set -e; ip link set lo up; mount --bind %s/repo /repo; mount --bind %s/verif /verif; cd /verif; "
-             "%s" % (base, base, "" if n.startswith("clean") else "git -C /repo apply %s/patch.diff; " % src))
+             "%s" % (base, base, "" if n.startswith("clean") else "git -C /repo apply %s/patch.diff || { echo FARM-PATCH-DOES-NOT-APPLY; exit 3; }; " % src))
     if n.startswith("clean"):
         src = "/verif/.work/farmclean/%s-%s" % (prop, n)
         os.makedirs(src, exist_ok=True)
@@ -34,7 +36,9 @@ def job(slot, prop, n, props):
     for p in props:
         t0 = time.time()
         rc, out = sh("unshare -m -n sh -c '%s VERIF_SEED=%s ./check %s --tier %s'" % (inner, SEED, p, TIER), timeout=3000 if TIER == "quick" else 14000)
-        lines = [l for l in out.split("\n") if l.startswith(("VIOLATION", "BROKEN", "FAILING-INPUT", "OK ", "KNOWN-FINDING"))]
+        lines = [l for l in out.split("\n") if l.startswith(("VIOLATION", "BROKEN", "FAILING-INPUT", "OK ", "KNOWN-FINDING", "FARM-PATCH"))]
+        if rc != 0 and not any(l.startswith("VIOLATION") for l in lines):
+            lines.append("FARM-NO-VERDICT rc=%d: %s" % (rc, " ".join(out.split())[-300:]))
         results[p] = {"rc": rc, "wall_s": round(time.time() - t0, 1), "lines": [l[:400] for l in lines[:12]]}
         open(os.path.join(src, "farm.log"), "w").write(out[-20000:])
     json.dump(results, open(os.path.join(src, "farm.json"), "w"), indent=1)
